@@ -264,6 +264,15 @@ func (e *SpecEnv) term(x Expr) (Val, error) {
 		if n.Forall {
 			k = "forall"
 			body = implies(and(guards...), body)
+			// trigger: the left side of the concluding equality, when it is an
+			// application mentioning every bound variable
+			if pats := ne.triggerFor(n); len(pats) > 0 {
+				body = "(! " + body
+				for _, p := range pats {
+					body += " :pattern (" + p + ")"
+				}
+				body += ")"
+			}
 		} else {
 			body = and(append(guards, body)...)
 		}
@@ -628,7 +637,7 @@ func (e *SpecEnv) index(n *EIndex) (Val, error) {
 	switch u := x.Typ.Underlying().(type) {
 	case *types.Slice:
 		h, srt := c.memHeap(u.Elem())
-		return Val{T: "(select (select " + c.heapGet(e.cur, h, srt) + " (sl.base " + x.T + ")) " + c.iadd("(sl.off "+x.T+")", e.idx(i)) + ")", Typ: u.Elem()}, nil
+		return Val{T: "(select (select " + c.heapGet(e.cur, h, srt) + " (sl.base " + x.T + ")) " + c.eidx("(sl.off "+x.T+")", e.idx(i)) + ")", Typ: u.Elem()}, nil
 	case *types.Array:
 		return Val{T: "(select " + x.T + " " + e.idx(i) + ")", Typ: u.Elem()}, nil
 	case *types.Basic:
@@ -1136,7 +1145,7 @@ func (e *SpecEnv) seqEq(a, b Val) string {
 		switch u := v.Typ.Underlying().(type) {
 		case *types.Slice:
 			h, srt := c.memHeap(u.Elem())
-			return "(select (select " + c.heapGet(e.cur, h, srt) + " (sl.base " + v.T + ")) " + c.iadd("(sl.off "+v.T+")", i) + ")", "(sl.len " + v.T + ")"
+			return "(select (select " + c.heapGet(e.cur, h, srt) + " (sl.base " + v.T + ")) " + c.eidx("(sl.off "+v.T+")", i) + ")", "(sl.len " + v.T + ")"
 		case *types.Array:
 			return "(select " + v.T + " " + i + ")", c.idxLit(u.Len())
 		}
@@ -1364,4 +1373,60 @@ func (e *SpecEnv) bytesOf(v Val) (Val, error) {
 		return v, nil
 	}
 	return Val{}, fmt.Errorf("bytes() of %s", v.Typ)
+}
+
+// triggerFor picks an E-matching pattern for a universally quantified spec
+// formula of the shape  guard ==> L == R  (or  L == R).
+func (e *SpecEnv) triggerFor(n *EQuant) []string {
+	body := n.Body
+	var out []string
+	for {
+		b, ok := body.(*EBin)
+		if !ok {
+			return nil
+		}
+		if b.Op == "==>" {
+			body = b.R
+			continue
+		}
+		if b.Op != "==" {
+			return nil
+		}
+		for _, side := range []Expr{b.L, b.R} {
+			switch side.(type) {
+			case *EIndex, *ECall:
+			default:
+				continue
+			}
+			before := len(e.c.Log)
+			v, err := e.term(side)
+			e.c.Log = e.c.Log[:before]
+			if err != nil || !(strings.HasPrefix(v.T, "(select ") || strings.HasPrefix(v.T, "(uf$") || strings.HasPrefix(v.T, "(sat ")) {
+				continue
+			}
+			all := true
+			toks := map[string]bool{}
+			for _, tk := range strings.FieldsFunc(v.T, func(r rune) bool { return r == ' ' || r == '(' || r == ')' }) {
+				toks[tk] = true
+			}
+			for _, bv := range n.Vars {
+				if !toks["q$"+bv.Name] {
+					all = false
+				}
+			}
+			// arithmetic inside a pattern defeats E-matching (the solver reorders
+			// sums): only bare-variable index patterns are given explicitly
+			if strings.Contains(v.T, "(+ ") || strings.Contains(v.T, "(- ") || strings.Contains(v.T, "(bvadd ") || strings.Contains(v.T, "(bvsub ") || strings.Contains(v.T, "(* ") {
+				return nil
+			}
+			if strings.Contains(v.T, "(ix ") {
+				// stable only if the ix arguments are themselves arithmetic-free (checked above)
+			}
+			if all && !strings.Contains(v.T, "(ite ") && !strings.Contains(v.T, "(let ") {
+				out = append(out, v.T)
+				break
+			}
+		}
+		return out
+	}
 }
